@@ -23,7 +23,7 @@ type c03params struct {
 }
 
 func init() {
-	report.Register("C03", report.Check{Level: "model_checking", QuickBudget: 150 * time.Second, ThoroughBudget: 40 * time.Minute, Run: runC03})
+	report.Register("C03", report.Check{Level: "model_checking", QuickBudget: 240 * time.Second, ThoroughBudget: 25 * time.Minute, Run: runC03})
 	explore.Register("C03.frame", func(p string) explore.Harness {
 		var pr c03params
 		json.Unmarshal([]byte(p), &pr)
